@@ -44,7 +44,7 @@ def plan(tier, seed):
     i = 0
     for threads in (2, 4, 8, 16):
         for reuse in (0, 1):
-            S.append({"kind": "threads", "threads": threads, "reuse": reuse, "stream": i, "rounds": (10 if q else 60), "inject": (i % 2 == 1), "env": {"REUSE_Z3_SOLVER": str(reuse)}})
+            S.append({"kind": "threads", "threads": threads, "reuse": reuse, "stream": i, "rounds": (10 if q else 130), "inject": (i % 2 == 1), "env": {"REUSE_Z3_SOLVER": str(reuse)}})
             i += 1
     return S
 
